@@ -1172,7 +1172,16 @@ impl RelayActor {
     async fn handle_msg(&mut self, msg: RelayActorMessage) {
         match msg {
             RelayActorMessage::NetworkChange { report } => {
+                #[cfg(iroh_verif)]
+                let preferred = report.preferred_relay.clone();
                 self.on_network_change(report).await;
+                #[cfg(iroh_verif)]
+                crate::verif_hooks::pause::trace::event(|| {
+                    format!(
+                        "relay-actor network-change handled preferred={}",
+                        preferred.map_or("none".to_string(), |u| u.to_string())
+                    )
+                });
             }
             RelayActorMessage::MaybeCloseRelaysOnRebind => {
                 self.maybe_close_relays_on_rebind().await;
@@ -1325,6 +1334,10 @@ impl RelayActor {
 
     fn start_active_relay(&mut self, url: RelayUrl) -> ActiveRelayHandle {
         debug!(?url, "Adding relay connection");
+        #[cfg(iroh_verif)]
+        crate::verif_hooks::pause::trace::event(|| {
+            format!("relay-actor started active relay {url}")
+        });
 
         let auth_token = self
             .config
@@ -1484,11 +1497,19 @@ pub(crate) struct RelayRecvDatagram {
 pub mod verif_hooks {
     use std::sync::Arc;
 
-    use iroh_base::RelayUrl;
-    use n0_error::AnyError;
+    use std::sync::atomic::AtomicBool;
 
-    use super::{HomeRelayWatch, RelayConnectionState};
-    use crate::endpoint::RelayStatus;
+    use iroh_base::{EndpointId, RelayUrl, SecretKey};
+    use iroh_relay::{RelayMap, protos::relay::Datagrams};
+    use n0_error::AnyError;
+    use tokio::sync::mpsc;
+    use tokio_util::{sync::CancellationToken, task::AbortOnDropHandle};
+
+    use super::{
+        Config, HomeRelayWatch, RelayActor, RelayActorMessage, RelayConnectionState,
+        RelayRecvDatagram, RelaySendItem,
+    };
+    use crate::{dns::DnsResolver, endpoint::RelayStatus, net_report::Report};
 
     /// Connection state codes used by [`HomeRelay`].
     ///
@@ -1549,6 +1570,87 @@ pub mod verif_hooks {
         pub fn watched(&self) -> Option<(RelayUrl, StateCode)> {
             use n0_watcher::Watcher;
             self.0.watch().get().map(|st| decode(&st))
+        }
+    }
+
+    /// A real [`RelayActor`] (with the [`ActiveRelayActor`]s it starts) running against the
+    /// relays of `relay_map`, driven by the messages the socket sends it.
+    #[derive(Debug)]
+    pub struct RelayActorDriver {
+        my_relay: HomeRelayWatch,
+        actor_tx: mpsc::Sender<RelayActorMessage>,
+        send_tx: mpsc::Sender<RelaySendItem>,
+        _recv_rx: mpsc::Receiver<RelayRecvDatagram>,
+        cancel: CancellationToken,
+        _task: AbortOnDropHandle<()>,
+    }
+
+    impl RelayActorDriver {
+        /// Spawns `RelayActor::run` on the current tokio runtime (as `RelayTransport::new` does).
+        pub fn start(
+            secret_key: SecretKey,
+            relay_map: RelayMap,
+            tls_config: rustls::ClientConfig,
+        ) -> Self {
+            let my_relay = HomeRelayWatch::default();
+            let config = Config {
+                my_relay: my_relay.clone(),
+                secret_key,
+                dns_resolver: DnsResolver::new(),
+                proxy_url: None,
+                ipv6_reported: Arc::new(AtomicBool::new(false)),
+                tls_config,
+                metrics: Default::default(),
+                relay_map,
+            };
+            let (send_tx, send_rx) = mpsc::channel(256);
+            let (recv_tx, recv_rx) = mpsc::channel(512);
+            let (actor_tx, actor_rx) = mpsc::channel(256);
+            let cancel = CancellationToken::new();
+            let actor = RelayActor::new(config, recv_tx, cancel.clone());
+            let task = tokio::spawn(async move { actor.run(actor_rx, send_rx).await });
+            Self {
+                my_relay,
+                actor_tx,
+                send_tx,
+                _recv_rx: recv_rx,
+                cancel,
+                _task: AbortOnDropHandle::new(task),
+            }
+        }
+
+        /// Sends `RelayActorMessage::NetworkChange` with a report whose preferred relay is
+        /// `preferred` — how the socket tells the actor which relay net-report chose as home.
+        pub async fn network_change(&self, preferred: Option<RelayUrl>) -> bool {
+            let report = Report {
+                preferred_relay: preferred,
+                ..Default::default()
+            };
+            self.actor_tx
+                .send(RelayActorMessage::NetworkChange { report })
+                .await
+                .is_ok()
+        }
+
+        /// Queues a datagram for `dst` via relay `url` (traffic to a peer whose home relay is
+        /// `url`): the actor opens a connection to `url` if it has none.
+        pub async fn send_via(&self, url: RelayUrl, dst: EndpointId) -> bool {
+            let item = RelaySendItem {
+                remote_endpoint: dst,
+                url,
+                datagrams: Datagrams::from([0u8; 8]),
+            };
+            self.send_tx.send(item).await.is_ok()
+        }
+
+        /// The advertised home relay and the code of its connection state.
+        pub fn get(&self) -> Option<(RelayUrl, StateCode)> {
+            self.my_relay.get().map(|st| decode(&st))
+        }
+
+        /// Cancels the actor (it closes its relay connections).
+        pub fn shutdown(&self) {
+            self.cancel.cancel();
         }
     }
 
